@@ -14,7 +14,7 @@ if [ -n "$(git -C /repo status --porcelain)" ]; then echo "REFUSING: /repo has u
 git -C /repo apply $wt/patch.diff || { echo "patch does not apply to /repo"; exit 2; }
 for p in "$@"; do
   echo "== check $p on seeded tree =="
-  bin/limevc -repo /repo -verif /verif -prop $p -no-evidence -out /tmp/seedout 2>&1 | grep "VIOLATION\|UNDEC\|VACUOUS\|^property" | sed 's/replay=[^ ]* //' | head -12
+  ${LIMEVC:-bin/limevc} -repo /repo -verif /verif -prop $p -no-evidence -out /tmp/seedout 2>&1 | grep "VIOLATION\|UNDEC\|VACUOUS\|^property" | sed 's/replay=[^ ]* //' | head -12
 done
 git -C /repo apply -R $wt/patch.diff ; git -C /repo status --short | head -3
 rm -rf /tmp/seedout
